@@ -262,7 +262,7 @@ def symlink_stream(ctx: Ctx, out: Outcome, add, fh_local, fh_git, helpers) -> No
                     else:
                         out.hit("symlink.open:inside-root:" + hname)
         if use_git:
-            gh._GitFileHandler__fnz()
+            common.get_private(gh, "_GitFileHandler__fnz", lambda v: isinstance(v, __import__("weakref").finalize))()
         shutil.rmtree(root, ignore_errors=True)
     out.extra["symlinks"] = stats
 
@@ -382,7 +382,7 @@ def run(ctx: Ctx) -> Outcome:
                 judge("local", "iterdir", sd, n, str(root), [p for k, p in calls if k == "iterdir"])
                 calls = observe(lambda: fh.rootdir.joinpath(n).is_file())
                 judge("local", "is_file", sd, n, str(root), [p for k, p in calls if k in ("is_file", "is_dir")])
-            fh._LocalFileHandler__transaction = None
+            common.set_private(fh, "_LocalFileHandler__transaction", None, lambda v: v is None or isinstance(v, (set, dict, list)), ("trans", "tx", "txn"))
             del base
         # ---- memory
         fh = fh_mem.MemoryFileHandler(subdir=sd)
@@ -399,7 +399,7 @@ def run(ctx: Ctx) -> Outcome:
             out.traces_validated += 1
         # ---- zip
         fh = fh_zip.ZipFileHandler(str(zpath), subdir=sd)
-        zf = fh._ZipFileHandler__file
+        zf = common.get_private(fh, "_ZipFileHandler__file", lambda v: isinstance(v, __import__("zipfile").ZipFile))
         orig_open = zf.open
         def zopen(name, *a, **k):
             rec.rec("zip-open", name)
@@ -601,7 +601,7 @@ def run(ctx: Ctx) -> Outcome:
     tmp_names += ["".join(ctx.rng.choice("aé€\U0001F600.") for _ in range(ctx.rng.randint(60, 260))) for _ in range(ctx.pick(40, 400))]
     for n in tmp_names:
         for d in ([], ["d"], ["d", "e"]):
-            r = fh_local._tmpname(P(*d, n))
+            r = common.find_function(fh_local, "_tmpname", ("tmp", "temp"))(P(*d, n))
             add("tmpname", d + [n], {"op": "path.tmp", "parts": d + [n]}, list(r.parts))
             out.case(("tmp", tuple(d), n))
             nb = len(n.encode())
@@ -654,7 +654,7 @@ def replay(ctx: Ctx, case: dict):
         return None
     if case["kind"] == "tmpname":
         from capellambse.filehandler import local as fh_local
-        r = fh_local._tmpname(pathlib.PurePosixPath(*case["dir"], case["name"]))
+        r = common.find_function(fh_local, "_tmpname", ("tmp", "temp"))(pathlib.PurePosixPath(*case["dir"], case["name"]))
         if len(os.fsencode(r.name)) > 255:
             return f"_tmpname gives a name of {len(os.fsencode(r.name))} bytes"
         return None
@@ -674,7 +674,7 @@ def replay(ctx: Ctx, case: dict):
             z.writestr("top.txt", "y")
         fh = fz.ZipFileHandler(str(zp), subdir=case["subdir"])
         seen = []
-        zf = fh._ZipFileHandler__file
+        zf = common.get_private(fh, "_ZipFileHandler__file", lambda v: isinstance(v, __import__("zipfile").ZipFile))
         zf.open = lambda name, *a, **k: (seen.append(name), (_ for _ in ()).throw(KeyError(name)))[1]
         try:
             fh.open(case["name"])
